@@ -93,7 +93,7 @@ fn canonical(_ex: &mut Exec) -> Option<String> {
 }
 
 /// every op applicable in the current (model) state
-fn alphabet(ex: &mut Exec, allocs: usize, max_allocs: usize, max_nodes: usize) -> Vec<Op> {
+fn alphabet(ex: &mut Exec, allocs: usize, max_allocs: usize, max_nodes: usize, weak: bool) -> Vec<Op> {
     let mut ops: Vec<Op> = Vec::new();
     if ex.arenas[0].is_none() {
         return ops;
@@ -121,6 +121,9 @@ fn alphabet(ex: &mut Exec, allocs: usize, max_allocs: usize, max_nodes: usize) -
             if can_alloc {
                 ops.push(cb(kind, vec![MOp::Alloc { id: next_id, kind: Kind::Node, n: 0, init: vec![] }, MOp::SetS { p: *p, slot: *slot, c: Some(next_id), mode: *mode, thin: false }]));
             }
+        }
+        if !weak {
+            continue;
         }
         // weak slot 0
         let curw = ex.w.weak_slot(0, *p, 0).flatten();
@@ -189,6 +192,7 @@ pub fn mode_bex(args: &Args) {
     let max_allocs = args.num("allocs", 4) as usize;
     let max_nodes = args.num("nodes", 3) as usize;
     let seed = args.num("seed", 0) as usize;
+    let weak = !args.flag("noweak");
     let mut agg = Agg::new();
     agg.own = own_props(&prop);
     let init: Vec<Op> = vec![Op::New { a: 0, via: NewKind::New, body: vec![] }, Op::SetPacing { a: 0, p: PacingSpec::STEPPER }];
@@ -223,7 +227,7 @@ pub fn mode_bex(args: &Args) {
             continue;
         }
         let mut ex = replay(&prefix);
-        let ops = alphabet(&mut ex, count_allocs(&prefix), max_allocs, max_nodes);
+        let ops = alphabet(&mut ex, count_allocs(&prefix), max_allocs, max_nodes, weak);
         let _ = finish_result(ex);
         for (oi, op) in ops.into_iter().enumerate() {
             if first_level && (oi + seed) % nshards != shard {
@@ -266,6 +270,6 @@ pub fn mode_bex(args: &Args) {
             .set("transitions", transitions)
             .set("max_depth", max_seen_depth)
             .set("frontier_emptied", frontier_emptied)
-            .set("universe", format!("<= {} live nodes, <= {} allocations, depth <= {}", max_nodes, max_allocs, max_depth)),
+            .set("universe", format!("<= {} live nodes, <= {} allocations, depth <= {}, weak pointers {}", max_nodes, max_allocs, max_depth, if weak { "on" } else { "off" })),
     );
 }
